@@ -24,6 +24,29 @@ Definition op_cc_write (args : list sx) : sx :=
   | None => bad_args
   end.
 
+(* cc_write_history (items) idx field : Write, replace one blob by its complement (same length), Write again *)
+Definition flip_bytes (b : bytes) : bytes := map (fun c => N.lxor c 255) b.
+Fixpoint edit_blob (i : nat) (ocsp : bool) (c : list augcert) : list augcert :=
+  match c, i with
+  | [], _ => []
+  | a :: t, O =>
+      (if ocsp then {| ac_cert := ac_cert a; ac_ocsp := option_map flip_bytes (ac_ocsp a); ac_sct := ac_sct a |}
+       else {| ac_cert := ac_cert a; ac_ocsp := ac_ocsp a; ac_sct := option_map flip_bytes (ac_sct a) |}) :: t
+  | a :: t, S j => a :: edit_blob j ocsp t
+  end.
+Definition op_cc_write_history (args : list sx) : sx :=
+  match args with
+  | [SL items; SZ i; f] =>
+      match omap augcert_of_sx items with
+      | Some c =>
+          let c' := if tag_is f "ocsp" then edit_blob (Z.to_nat i) true c
+                    else if tag_is f "sct" then edit_blob (Z.to_nat i) false c else c in
+          SL [sx_bytes_R (cc_write c); sx_bytes_R (cc_write c')]
+      | None => bad_args
+      end
+  | _ => bad_args
+  end.
+
 Definition x509_ok_of (tab : list sx) (der : bytes) : bool :=
   existsb (fun s => match s with SL [SB d; SZ ok] => bytes_eqb d der && negb (ok =? 0)%Z | _ => false end) tab.
 
@@ -43,4 +66,5 @@ Definition dispatch_cc (op : bytes) (args : list sx) : option sx :=
   if bytes_eqb op (s2b "cc_write") then Some (op_cc_write args)
   else if bytes_eqb op (s2b "cc_read") then Some (op_cc_read args)
   else if bytes_eqb op (s2b "sct_list") then Some (op_sct_list args)
+  else if bytes_eqb op (s2b "cc_write_history") then Some (op_cc_write_history args)
   else None.
